@@ -252,6 +252,26 @@ N("extremes-byte_len-div_ceil", ["C06"],
 B("extremes-bit_len-off-by-one", ["C06"],
   [("src/bits.rs", "        BITS - self.leading_zeros()\n", "        BITS - self.leading_zeros() + (BITS > 0) as usize\n")], "bit_len|extreme")
 
+# ---- R-CARRY (C01, C02, C15): a carry word is read before it is overwritten
+B("carry-add-chain-cut", ["C01"],
+  [("src/add.rs", "            (self.limbs[i], carry) = carrying_add(self.limbs[i], rhs.limbs[i], carry);", "            (self.limbs[i], carry) = carrying_add(self.limbs[i], rhs.limbs[i], false);")], "overflowing_add|carry:carrying_add")
+B("carry-mul_nx1-chain-cut", ["C15", "C02"],
+  [("src/algorithms/mul.rs", "        (*lhs, carry) = u128::muladd(*lhs, a, carry).split();", "        (*lhs, carry) = u128::muladd(*lhs, a, 0).split();")], "mul_nx1|carry:split")
+B("carry-sbb_n-borrow-dropped", ["C15"],
+  [("src/algorithms/add.rs", "        (lhs[i], borrow) = sbb(lhs[i], rhs[i], borrow);", "        (lhs[i], _) = sbb(lhs[i], rhs[i], borrow);")], "sbb_n|carry:sbb")
+N("carry-adc_n-zip-form", ["C15"],
+  [("src/algorithms/add.rs", "    for i in 0..lhs.len() {\n        (lhs[i], carry) = adc(lhs[i], rhs[i], carry);\n    }\n    carry", "    for (l, r) in lhs.iter_mut().zip(rhs) {\n        let (sum, c) = adc(*l, *r, carry);\n        *l = sum;\n        carry = c;\n    }\n    carry")])
+N("carry-add-chain-through-temp", ["C01"],
+  [("src/add.rs", "            (self.limbs[i], carry) = carrying_add(self.limbs[i], rhs.limbs[i], carry);", "            let (sum, c) = carrying_add(self.limbs[i], rhs.limbs[i], carry);\n            self.limbs[i] = sum;\n            carry = c;")])
+B("kernel-addmul_nx1-index-past-window", ["C15", "C02"],
+  [("src/algorithms/mul.rs", "            addmul_nx1(lhs, &a[..lhs.len()], b);", "            addmul_nx1(lhs, &a[..lhs.len() + 1], b);")], "addmul")
+
+# ---- defect F18 re-created (C15): the zero-amount early return of the shift helpers removed
+B("kernel-shift_left_small-zero-amount", ["C15"],
+  [("src/algorithms/shift.rs", "pub fn shift_left_small(limbs: &mut [u64], amount: usize) -> u64 {\n    debug_assert!(amount < 64);\n    if amount == 0 {\n        return 0;\n    }\n", "pub fn shift_left_small(limbs: &mut [u64], amount: usize) -> u64 {\n    debug_assert!(amount < 64);\n")], "Overflow(Shr:*limb,Sub(64,amount))")
+N("kernel-shift_left_small-zero-amount-match-form", ["C15"],
+  [("src/algorithms/shift.rs", "pub fn shift_left_small(limbs: &mut [u64], amount: usize) -> u64 {\n    debug_assert!(amount < 64);\n    if amount == 0 {\n        return 0;\n    }\n", "pub fn shift_left_small(limbs: &mut [u64], amount: usize) -> u64 {\n    debug_assert!(amount < 64);\n    match amount {\n        0 => return 0,\n        _ => {}\n    }\n")])
+
 # ---- R-TOTAL/overflow-checks on C16 (defect F16, re-created)
 B("ovf-scale-size_hint-256-bit-formula", ["C16"],
   [("src/support/scale.rs", "            _ => self.0.byte_len() + 1,\n", "            _ => (32 - self.0.leading_zeros() / 8) + 1,\n")], "Overflow(Sub:32")
